@@ -1,5 +1,6 @@
 /- DDS.Driver.SketchOps — sketch-level lines (C01 C02 C06 C07 C08 C10 C11 C12 C13 C14 C15 C16). -/
 import DDS.Model.Sketch
+import DDS.Model.ChangeMapping
 import DDS.Driver.Util
 import Std.Data.HashMap
 
@@ -37,7 +38,7 @@ structure Tbl where
   sks : List (Nat × Entry) := []
 
 def isSketchCmd (c : String) : Bool :=
-  c ∈ ["M", "mv", "ml", "mi", "K", "add", "q", "qs", "obs", "merge", "copy", "clear", "rew", "encchk", "dec", "decm", "same"]
+  c ∈ ["M", "mv", "ml", "mi", "K", "add", "q", "qs", "obs", "merge", "copy", "clear", "rew", "encchk", "dec", "decm", "same", "chmap"]
 
 def parseMKind : String → Option MKind
   | "log" => some .log
@@ -90,6 +91,35 @@ def obs (t : Tbl) (e : Entry) (withSum : Bool) : String :=
     let sumS := if withSum then sm.toStr else "skip"
     s!"count={count.toStr} zero={s.zero.toStr} empty={if empty then 1 else 0} min={showRes mn} max={showRes mx} sum={sumS} fe={showFE fe}"
   | _, _ => "panic"
+
+/-- `idx:hexbits,idx:hexbits` (`-` = none) -/
+def parseFBins (s : String) : Option (List (Int × F64)) :=
+  if s = "-" then some [] else
+  (s.splitOn ",").mapM fun item =>
+    match item.splitOn ":" with
+    | [i, b] => do
+      let i ← parseInt i
+      let b ← parseF64 b
+      pure (i, b)
+    | _ => none
+
+/-- compare the model's bins (exact accumulation) with the implementation's (float accumulation):
+    same indexes up to slivers, weights within 1e-9 relative; "" = agreement -/
+def cmpBins (mine : Content) (go : List (Int × F64)) : String :=
+  let total : Rat := mine.total
+  let sliver : Rat := (if total < 0 then -total else total) / 1000000000
+  let goR : List (Int × Rat) := go.filterMap fun p => match p.2 with
+    | .fin q => some (p.1, q)
+    | _ => none
+  if goR.length != go.length then "non-finite weight" else
+  let keys := (mine.map (·.1) ++ goR.map (·.1)).eraseDups
+  let bad := keys.filter fun k =>
+    let a := mine.lookup k
+    let b := (goR.filter (·.1 == k)).foldl (fun acc p => acc + p.2) 0
+    let d := if a < b then b - a else a - b
+    let m := if a < b then b else a
+    !(d ≤ sliver + m / 1000000000)
+  if bad.isEmpty then "" else s!"bins {bad.take 3}"
 
 def withSk (t : Tbl) (h : String) (k : Nat → Entry → Tbl × String) : Tbl × String :=
   match parseNat h with
@@ -265,6 +295,34 @@ def run (t : Tbl) (cmd : String) (args : List String) : Tbl × String :=
             | .plain s => showRes (s.quantile env q)
             | .exact x => showRes (x.quantile env q))
         if obs t e1 false == obs t e2 false && qv e1 == qv e2 then (t, "same") else (t, "DIFF")
+  | "chmap", [h, m2, sc, posS, negS] =>
+    match parseNat m2, parseF64 sc with
+    | some m2, some sc =>
+      withSk t h fun _ e =>
+        match get? t.maps m2 with
+        | none => (t, "bad-handle")
+        | some me2 =>
+          let env1 := envOf t e
+          let env2 := me2.env
+          let s := inner e.sk
+          match s.pos.binsList, s.neg.binsList, parseFBins posS, parseFBins negS with
+          | some p, some n, some gp, some gn =>
+            if F64.eq sc F64.one && env1.id.equals env2.id then
+              -- identity shortcut: an exact copy
+              let same (a : List (Int × Rat)) (b : List (Int × F64)) : Bool :=
+                a.map (fun x => (x.1, F64.fin x.2)) == b
+              (t, if same p gp && same n gn then "ok" else "MODEL-DIFF identity-copy")
+            else
+              let mp := ChangeMapping.accumulate (ChangeMapping.spreadStore env1 env2 sc p 100000)
+              let mn := ChangeMapping.accumulate (ChangeMapping.spreadStore env1 env2 sc n 100000)
+              match mp, mn with
+              | some mp, some mn =>
+                let dp := cmpBins mp gp
+                let dn := cmpBins mn gn
+                (t, if dp == "" && dn == "" then "ok" else s!"MODEL-DIFF pos[{dp}] neg[{dn}]")
+              | _, _ => (t, "MODEL-DIFF non-finite")
+          | _, _, _, _ => (t, "bad-op")
+    | _, _ => (t, "bad-op")
   | "encchk", [h, om, bytes] =>
     match parseBytes bytes with
     | some bs => withSk t h fun _ e => (t, encChk e (om == "1") bs)
